@@ -176,6 +176,32 @@ pub fn long_pairs(
             }
         }
     }
+    // residue sweep: a few needles planted at every offset of a 600-byte
+    // window in the middle of a two-page haystack, a decoy near each end
+    let sweep_needles: [&[u8]; 4] = [b"ab", b"needle-x", b"\xC3\xA9t\xC3\xA9 \xFFq", b"0123456789abcdefghijklmnopqrstuvwxyzABCDEFGHIJ"];
+    let hlen = 8192 + 37;
+    for (si, ndl) in sweep_needles.iter().enumerate() {
+        let n = ndl.len();
+        let step = if lvl >= 2 { 1 } else { 1 + si % 2 };
+        let mut d = hlen / 2 - 300;
+        while d < hlen / 2 + 300 {
+            unit += 1;
+            if r.mine(unit) {
+                buf.clear();
+                buf.resize(hlen, b'.');
+                buf[d..d + n].copy_from_slice(ndl);
+                pairno += 1;
+                f(r, &buf, ndl, pairno);
+                // decoys: an occurrence near each end (both directions)
+                buf[hlen - n - 2..hlen - 2].copy_from_slice(ndl);
+                buf[2..2 + n].copy_from_slice(ndl);
+                buf[d - 1] = ndl[n - 1];
+                pairno += 1;
+                f(r, &buf, ndl, pairno);
+            }
+            d += step;
+        }
+    }
 }
 
 /// Exhaustive pairs over a small alphabet: every needle of length <= nmax
